@@ -9,9 +9,10 @@ confirmed from pywt.Wavelet(name).orthogonal, otherwise the case is outside the 
 """
 import numpy as np
 
-from vf.common import Plan, crandn, held, violated, inconclusive, rng_for, nrm, inner, pick
+from vf.common import Plan, relayout, crandn, held, violated, inconclusive, rng_for, nrm, inner, pick
 
 SPEC = {
+    "deciding_monitors": ["fn:fwt", "fn:iwt", "apply:Wavelet", "in:layout:F", "in:layout:strided", "in:complex64", "in:float32"],
     "rule": ("cases = (wavelet name over all haar/db/sym/coif names, shape 1-3 dims incl. odd "
              "lengths and lengths shorter than the filter, axes subset positive/negative/None, "
              "level None/1/2/3, real/complex, Linop or function); distinct = (family, filter "
@@ -123,8 +124,8 @@ def run_one(case):
         warnings.simplefilter("ignore")
         try:
             W = sp.linop.Wavelet(shape, axes=axes, wave_name=name, level=level)
-            x = crandn(rng, shape, dt)
-            x0 = x.copy()
+            x = relayout(crandn(rng, shape, dt), sum(case["rs"]) % 6)   # 1-3: F / T / strided
+            x0 = x.copy(order="C")
             if case["via"] == "linop":
                 c = W(x)
                 back = W.H(c)
